@@ -41,6 +41,9 @@ func c04(c *Ctx) {
 	walSkipRule(c, "R8")
 	replayAllLinesRule(c, "R9")
 	fastSyncHandoverRule(c, "R10")
+	shared(c, "C15", c15R1)
+	shared(c, "C01", func(c *Ctx) { quorumRule(c, "R1") })
+	shared(c, "C16", func(c *Ctx) { valsetCacheRule(c, "R2") })
 }
 
 // classify a stored value: "nil", "zero", or the rendered expression
